@@ -10,6 +10,7 @@ import (
 	"net"
 	"sort"
 	"strings"
+	"sync/atomic"
 	"testing"
 	"time"
 
@@ -45,6 +46,10 @@ type Scenario struct {
 	UDP     bool          `json:"udp"` // server offers UDP
 	Medias  int           `json:"medias"`
 	Reqs    []Req         `json:"reqs,omitempty"`
+	// RefuseReplay: the application refuses (457) a PLAY that arrives for a session which is already
+	// playing (a seek it does not support). The session must go on exactly as before - over TCP the
+	// interleaved frames must keep coming.
+	RefuseReplay bool `json:"refuse_replay,omitempty"`
 	// expiry workload
 	Exp *Expiry `json:"expiry,omitempty"`
 }
@@ -56,7 +61,23 @@ func gen(seed uint64, tier string) Scenario {
 	if r.Bool(0.3) {
 		return genExpiry(seed, r)
 	}
-	return genSeq(seed, r)
+	sc := genSeq(seed, r)
+	// a play conversation over TCP in which the application refuses a PLAY sent while playing
+	// (hash-derived so that no other choice moves)
+	if x := core.HS(seed, "c02.refusereplay", "", 0); x%100 < 8 {
+		sc.RefuseReplay = true
+		sc.Handler = "full"
+		sc.Reqs = nil
+		for i := 0; i < sc.Medias; i++ {
+			sc.Reqs = append(sc.Reqs, Req{Conn: 0, Method: "SETUP", Sess: "right", Tr: "tcp"})
+		}
+		sc.Reqs = append(sc.Reqs, Req{Conn: 0, Method: "PLAY", Sess: "right", Tr: "tcp"})
+		for i := 0; i < 1+int((x>>8)%3); i++ {
+			sc.Reqs = append(sc.Reqs, Req{Conn: 0, Method: []string{"PLAY", "OPTIONS", "GET_PARAMETER"}[(x>>(16+4*uint(i)))%3], Sess: "right", Tr: "tcp"})
+		}
+		sc.Reqs = append(sc.Reqs, Req{Conn: 0, Method: "PLAY", Sess: "right", Tr: "tcp"}, Req{Conn: 0, Method: "OPTIONS", Sess: "right", Tr: "tcp"})
+	}
+	return sc
 }
 
 func genSeq(seed uint64, r *core.Rand) Scenario {
@@ -245,7 +266,7 @@ func run(t *testing.T, sc Scenario) *core.Result {
 	opts := sys.Options{Seed: sc.Seed, Net: sc.Net, MaxSteps: 300000, Horizon: 10 * time.Minute}
 	var summary map[string]any
 	res := sys.Run(t, opts, func(w *sys.World) {
-		w.ProbeInit("reached_play", "reached_record", "reached_preRecord", "reached_prePlay", "illegal_request_rejected", "conn_closed_after_error",
+		w.ProbeInit("media_continues_after_refused_request", "reached_play", "reached_record", "reached_preRecord", "reached_prePlay", "illegal_request_rejected", "conn_closed_after_error",
 			"session_ended_by_teardown", "conn_kept_after_teardown", "session_ended_last_conn", "session_survives_conn_udp", "pipelined_batch", "two_conns",
 			"wrong_session_id", "not_implemented", "either_outcome", "unsupported_transport")
 		srvNode := w.Net.Node("srv", "10.0.0.1")
@@ -267,10 +288,25 @@ func run(t *testing.T, sc Scenario) *core.Result {
 			return
 		}
 		h.SetStream("/stream", stream)
+		if sc.RefuseReplay {
+			h.PlayStatus = func(ss *gortsplib.ServerSession) base.StatusCode {
+				if ss.State() == gortsplib.ServerSessionStatePlay {
+					return base.StatusInvalidRange
+				}
+				return 0
+			}
+		}
 		cli := w.Net.Node("cli", "10.0.0.20")
 
+		var writing atomic.Bool
+		nPackets := 40
+		if sc.RefuseReplay {
+			nPackets = 600
+		}
 		w.Go("writer", func() {
-			for i := 0; i < 40; i++ {
+			writing.Store(true)
+			defer writing.Store(false)
+			for i := 0; i < nPackets; i++ {
 				for _, m := range desc.Medias {
 					stream.WritePacketRTP(m, &rtp.Packet{Header: rtp.Header{Version: 2, PayloadType: m.Formats[0].PayloadType(), SequenceNumber: uint16(i)}, Payload: []byte{1, 2, 3, 4}}) //nolint:errcheck
 				}
@@ -359,6 +395,7 @@ func run(t *testing.T, sc Scenario) *core.Result {
 				exp   outcome
 				onOK  func()
 				note  string
+				mediaCheck bool
 			}
 
 			verifyStates := func(after string) bool {
@@ -436,7 +473,7 @@ func run(t *testing.T, sc Scenario) *core.Result {
 						break
 					}
 					s.k, s.q, s.cseq = k, q, cs
-					sents = append(sents, sent{k: k, q: q, cseq: cs, tgt: s.tgt, fresh: s.fresh, exp: s.exp, onOK: s.onOK, note: s.note})
+					sents = append(sents, sent{k: k, q: q, cseq: cs, tgt: s.tgt, fresh: s.fresh, exp: s.exp, onOK: s.onOK, note: s.note, mediaCheck: s.mediaCheck})
 					// apply the prediction now so that the next pipelined request is judged in the right state
 					if s.exp == expOK && s.onOK != nil {
 						s.onOK()
@@ -491,6 +528,16 @@ func run(t *testing.T, sc Scenario) *core.Result {
 							return
 						}
 						w.Probe("illegal_request_rejected")
+						if s.mediaCheck && writing.Load() {
+							// a refused request changes nothing: the stream's packets keep arriving
+							f0 := c.Frames
+							c.ReadResponse(80 * time.Millisecond) //nolint:errcheck // (times out; counts the frames it skips)
+							if writing.Load() && c.Frames == f0 {
+								w.Fail("c02/refused-request media", "%s (%s) was refused with %d; the session is still in state play, but no interleaved frame arrived on its connection during the next 80 ms although the stream is being written every 3 ms", s.q.Method, s.note, res.StatusCode)
+								return
+							}
+							w.Probe("media_continues_after_refused_request")
+						}
 					case expEither:
 						w.Probe("either_outcome")
 						if ok && s.onOK != nil {
@@ -690,6 +737,8 @@ type built struct {
 	exp   outcome
 	onOK  func()
 	note  string
+	// mediaCheck: after the answer the interleaved frames of the session must keep coming on this connection
+	mediaCheck bool
 }
 
 // buildRequest turns a scripted request into wire form and asks the model what
@@ -1000,6 +1049,9 @@ func buildRequest(m *model, q Req, k int, knownID string, sc Scenario, desc *des
 			set(expErr, "PLAY without a session", nil)
 		case foreignConn:
 			set(expEither, "PLAY from another connection", nil)
+		case tgt.state == "play" && sc.RefuseReplay:
+			set(expErr, "PLAY while playing, which the application refuses (457)", nil)
+			b.mediaCheck = tgt.tr == "tcp" && tgt.streamOn == k
 		case tgt.state == "prePlay" || tgt.state == "play":
 			t := tgt
 			set(expOK, "PLAY in "+tgt.state, func() {
